@@ -358,3 +358,10 @@ def extra_campaign(tier, seed, stats, known_open):
         return {"fuzz_campaign": "thorough tier only"}
     return fuzzrun.campaign("c19_chain_fuzz.py", "atheris/libFuzzer on cryocat.ribana (explicit entry/exit configurations)", seeds, stats, known_open,
                             runs=20000, seconds=300, seed=seed, max_len=400, parallel=int(os.environ.get("VERIF_JOBS", "16")))
+
+
+# rejected calls that run before every case (vlib/faults.py): nothing they leave behind - module state, library options,
+# stray files - may make the valid calls of the case violate the statement
+from vlib import faults as _faults  # noqa: E402
+
+fault_calls = _faults.for_property(ID)
